@@ -226,6 +226,14 @@ def decide(ctx, ob, falsifier, absolute=False):
             ctx.fail(d["family"], f"`{d['cmd'][:60]}`: the real code returns a value different from the reference "
                      f"(the Lean model, proved equal to the reference for every input)", d["case"],
                      expected=d["model"][:200], actual=d["impl"][:200])
+    if proved and ctx.disagreements and not ctx.failures:
+        # the real code panicked where the model (whose operations are proved total: C14 `Checked = Model`) returns a value:
+        # whatever the property says about the value returned by that call, no value was returned — a failing input
+        for d in ctx.disagreements[:20]:
+            if str(d.get("impl")) == "panic" and str(d.get("model")) != "panic" and d["family"] not in ("build", "tie-crash", "hooks"):
+                ctx.fail(d["family"], f"`{d['cmd'][:60]}` panicked on the real code; the operation is total in the model and the "
+                         f"property speaks about the value it returns", d["case"], expected=str(d["model"])[:200], actual="panic")
+                break
     known = [k for k in known_findings() if k.get("property") == pid and k.get("status") == "known"]
     broken = ob["broken"]
     if (broken or ctx.disagreements) and falsifier and not ctx.failures:
